@@ -19,7 +19,7 @@ FUNCS = ["MessageManager.send_message", "MessageManager._send_initially", "Messa
          "MessageManager._remove_exchange", "MessageManager._continue_backlog", "MessageManager._retransmit",
          "MessageManager.dispatch_error", "MessageManager.dispatch_message"]
 
-NK = 7   # event kinds per remote
+NK = 8   # event kinds per remote
 
 
 def mk_seq(first, depth):
@@ -162,6 +162,14 @@ def mk_seq(first, depth):
                         reply(r, ACK, False)
                     elif kind == 5:
                         timer(r)
+                    elif kind == 7:
+                        # an empty ACK (remote 0) / Reset (remote 1) from an endpoint that is not the exchange's peer but carries
+                        # the open exchange's message ID: no effect on the exchange
+                        if outstanding[r] is not None:
+                            a = Message(code=EMPTY, _mtype=ACK if r == 0 else RST, _mid=outstanding[r].mid)
+                            a.remote = mmkit.Remote(2)
+                            a.direction = Direction.INCOMING
+                            mm.dispatch_message(a)
                     else:
                         transport_error(r)
                     check()
@@ -186,8 +194,8 @@ def obligations(tier):
     for first in range(2 * NK):
         obs.append(Obligation(
             name="nstart-first%02d-depth%d" % (first, depth), make=mk_seq(first, depth),
-            timeout=280 if tier == "quick" else 2500, functions=FUNCS,
-            symbolic={"pre-state per remote": "open? x retransmitted? x backlog 0..2", "events after the first": "index 0..13 each",
+            timeout=600 if tier == "quick" else 3000, functions=FUNCS,
+            symbolic={"pre-state per remote": "open? x retransmitted? x backlog 0..2", "events after the first": "index 0..15 each (submit CON / NON, ACK, RST, ACK with wrong MID, timer, transport error, ACK or RST from a stranger with the open MID; per remote)",
                       "peer earlier used the same message IDs in its own requests": "bool"},
             concrete={"first event": first, "depth": depth, "MAX_RETRANSMIT": 1, "remotes": 2},
             stubs=["SimLoop", "RecTokenManager", "RecMessageInterface", "random stub"]))
